@@ -831,7 +831,18 @@ func runProperty(prop *PropSpec, tier string, seed int, verbose int, only string
 	violationsReported := 0
 	knownReported := map[string]bool{}
 	reproduced, notReproduced := 0, 0
-	for _, k := range order {
+	// at most maxGroups violation groups are replayed and reported (a broken table entry can
+	// fail for every terminal description: hundreds of groups, seconds of go test each)
+	maxGroups := 16
+	if v, err := strconv.Atoi(os.Getenv("VERIF_MAX_GROUPS")); err == nil && v > 0 {
+		maxGroups = v
+	}
+	skippedGroups := 0
+	for gi, k := range order {
+		if gi >= maxGroups && violationsReported > 0 {
+			skippedGroups++
+			continue
+		}
 		g := groups[k]
 		// choose up to 3 representatives: prefer ones not matched by a known finding
 		var reps []*Violation
@@ -931,6 +942,10 @@ func runProperty(prop *PropSpec, tier string, seed int, verbose int, only string
 			notReproduced += len(spurious)
 			inconAll = append(inconAll, fmt.Sprintf("%d counterexamples for %s exist under the abstraction of %s but none of those tried replays with the real function (e.g. %s): neither shown nor refuted", len(spurious), k, violJob[reps[0]].Spec.Abstracts, spurious[0]))
 		}
+	}
+
+	if skippedGroups > 0 {
+		fmt.Printf("(%d further violation groups were found by the solver and not replayed: limit %d, VERIF_MAX_GROUPS)\n", skippedGroups, maxGroups)
 	}
 
 	// ---- translator validation: replay sampled passing paths natively
